@@ -223,10 +223,10 @@ def describe(case, s, t, labels, spec):
         ctx.add("snk:%s:%s" % (t["kind"], t["pos"]))
     if spec is not None and not spec.get("uniq_names") and len(case["sources"]) + len(case["sinks"]) > 2:
         ctx.add("shared-names")
-        # a loop at module level: the module-level statements after it (the calls that start the other chains) are
-        # analysed up to three times
-        if any(l.startswith(("for ", "while ")) for t in (case.get("files") or {}).values() for l in t.split("\n")):
-            ctx.add("module-level-loop")
+    # a loop at module level: the module-level statements after it (the calls that start the other chains) are
+    # analysed up to three times
+    if len(case.get("chains") or ()) > 1 and any(l.startswith(("for ", "while ")) for t in (case.get("files") or {}).values() for l in t.split("\n")):
+        ctx.add("module-level-loop")
     return sorted(ctx), list(labels)
 
 
@@ -240,8 +240,14 @@ def sig_class(desc):
     family fall into the class 'composition' (their single links and pairs all pass)."""
     ctx, seq = desc
     ctx = set(ctx)
+    if "multi-chain" in ctx:
+        # the miss needs the other chains of the project (it disappears when its chain is rendered alone): named by
+        # what the project has (a module-level loop) or by the link kinds of the missed chain
+        if "module-level-loop" in ctx:
+            return "multi-chain", "after-module-level-loop"
+        return "multi-chain", "+".join(sorted({tg._strip_label(x) for x in seq})) or "direct"
     if "shared-names" in ctx:
-        return "shared-names", ("after-module-level-loop" if "module-level-loop" in ctx else "-")
+        return "shared-names", "-"
     stripped = [tg._strip_label(x) for x in seq]
     if "global_import" in stripped:
         ctx.discard("start_mod")
@@ -514,6 +520,7 @@ def is_subsequence(need, seq):
 
 
 MODULE_LOOP_MARK = "@several-chains-with-a-module-level-loop"
+MULTI_MARK = "@several-chains-one-with:"
 
 
 def combo_blocked(case, combos):
@@ -523,6 +530,11 @@ def combo_blocked(case, combos):
         if len(case["chains"]) > 1 and any(l.startswith(("for ", "while ")) for t in case["files"].values() for l in t.split("\n")):
             return MODULE_LOOP_MARK
         combos = [c for c in combos if c != MODULE_LOOP_MARK]
+    for mk in [c for c in combos if c.startswith(MULTI_MARK)]:
+        want = set(mk[len(MULTI_MARK):].split("+"))
+        if len(case["chains"]) > 1 and any(want <= {tg._strip_label(x) for x in ch["labels"]} for ch in case["chains"]):
+            return mk
+    combos = [c for c in combos if not c.startswith(MULTI_MARK)]
     for ci, ch in enumerate(case["chains"]):
         have = set(ch.get("pre", []))
         have.add(ch.get("src_label", "src:" + ch["src"]))
@@ -679,8 +691,10 @@ def step_over_plan(observed):
     fam_names = {n for n, _ in tg.FAMILIES}
     avoid, combos, uniq = set(), [], False
     for cls, detail in sorted(observed):
-        if cls == "shared-names" and detail == "after-module-level-loop":
+        if cls == "multi-chain" and detail == "after-module-level-loop":
             combos.append(MODULE_LOOP_MARK)     # projects with several chains and a module-level loop are skipped
+        elif cls == "multi-chain":
+            combos.append(MULTI_MARK + detail)  # projects with several chains, one of them with these link kinds, are skipped
         elif cls == "shared-names":
             uniq = True
         elif cls in fam_names:
